@@ -276,10 +276,14 @@ impl Gate {
 
         let conns_pos = conns.len();
         let other_conns_pos = other_conns.len();
-        assert!(
-            conns_pos < 2 && other_conns_pos < 2,
-            "Cannot add connection, gates allready connected to multiple points"
-        );
+        if conns_pos >= 2 || other_conns_pos >= 2 {
+            // Release both gates before the call is rejected: a panic
+            // with the guards alive would poison the gates for good, and
+            // every later use of them (by any module) would panic as well.
+            drop(other_conns);
+            drop(conns);
+            panic!("Cannot add connection, gates allready connected to multiple points");
+        }
 
         let ch1 = channel.as_ref().map(|c| Arc::new(c.dup()));
         let ch2 = channel;
